@@ -1,6 +1,7 @@
 //! C06 (value round-trip part only): decode(encode(v)) == v for small era values, symbolic scalars, concrete shapes.
 //! fn: Encode/Decode impls of pallas_primitives::{RationalNumber, ExUnits, TransactionInput, StakeCredential, Nonce, Metadatum}, conway::{DRep, Voter, GovActionId, Vote}
 //! stub: std::fmt::format -> empty String
+//! outside: quick tier holds only the hash/flag-carrying types; every harness with a symbolic integer (RationalNumber, ExUnits, TransactionInput, GovActionId, Metadatum::Int) is thorough tier because minicbor's integer encoder branches five ways on the value (rational_8_8: 113 s, the others: no verdict in 150 s under load)
 //! outside: byte-isomorphism on the 1777 corpus blocks (replaying fixed artefacts is not a solver question), whole Block/Tx values, anything holding a multi-entry map, Relay / Anchor / Certificate / byron types / Metadatum Text (String: std UTF-8 validation gives no verdict), Metadatum Array/Map
 use pallas_codec::minicbor;
 use pallas_codec::utils::Int;
@@ -63,13 +64,13 @@ fn any_hash<const N: usize>() -> Hash<N> {
 }
 
 // bound: both u64 fields symbolic inside a concrete CBOR head class (classes 8x8, 0x1, 2x4); unwind 6
-rt!(c06_q_rational_8_8, RationalNumber, 24, RationalNumber { numerator: u64_in(8), denominator: u64_in(8) }, |a, b| a.numerator == b.numerator && a.denominator == b.denominator);
-rt!(c06_q_rational_0_1, RationalNumber, 24, RationalNumber { numerator: u64_in(0), denominator: u64_in(1) }, |a, b| a.numerator == b.numerator && a.denominator == b.denominator);
+rt!(c06_t_rational_8_8, RationalNumber, 24, RationalNumber { numerator: u64_in(8), denominator: u64_in(8) }, |a, b| a.numerator == b.numerator && a.denominator == b.denominator);
+rt!(c06_t_rational_0_1, RationalNumber, 24, RationalNumber { numerator: u64_in(0), denominator: u64_in(1) }, |a, b| a.numerator == b.numerator && a.denominator == b.denominator);
 rt!(c06_t_rational_2_4, RationalNumber, 24, RationalNumber { numerator: u64_in(2), denominator: u64_in(4) }, |a, b| a.numerator == b.numerator && a.denominator == b.denominator);
-rt!(c06_q_exunits_8_4, ExUnits, 24, ExUnits { mem: u64_in(8), steps: u64_in(4) }, |a, b| a.mem == b.mem && a.steps == b.steps);
+rt!(c06_t_exunits_8_4, ExUnits, 24, ExUnits { mem: u64_in(8), steps: u64_in(4) }, |a, b| a.mem == b.mem && a.steps == b.steps);
 rt!(c06_t_exunits_0_2, ExUnits, 24, ExUnits { mem: u64_in(0), steps: u64_in(2) }, |a, b| a.mem == b.mem && a.steps == b.steps);
 // bound: 32-byte hash symbolic (compared at a symbolic index), index symbolic in a concrete head class; unwind 6
-rt!(c06_q_txin_2, TransactionInput, 48, TransactionInput { transaction_id: any_hash(), index: u64_in(2) }, |a, b| a.index == b.index && hash_eq(&a.transaction_id, &b.transaction_id));
+rt!(c06_t_txin_2, TransactionInput, 48, TransactionInput { transaction_id: any_hash(), index: u64_in(2) }, |a, b| a.index == b.index && hash_eq(&a.transaction_id, &b.transaction_id));
 rt!(c06_t_txin_8, TransactionInput, 48, TransactionInput { transaction_id: any_hash(), index: u64_in(8) }, |a, b| a.index == b.index && hash_eq(&a.transaction_id, &b.transaction_id));
 // bound: variant concrete, 28-byte hash symbolic; unwind 6
 rt!(c06_q_stakecred_key, StakeCredential, 40, StakeCredential::AddrKeyhash(any_hash()), |a, b| matches!((a, b), (StakeCredential::AddrKeyhash(x), StakeCredential::AddrKeyhash(y)) if hash_eq(x, y)));
@@ -85,7 +86,7 @@ rt!(c06_t_voter_cc_key, Voter, 40, Voter::ConstitutionalCommitteeKey(any_hash())
 rt!(c06_t_voter_drep_script, Voter, 40, Voter::DRepScript(any_hash()), |a, b| matches!((a, b), (Voter::DRepScript(x), Voter::DRepScript(y)) if hash_eq(x, y)));
 rt!(c06_t_voter_drep_key, Voter, 40, Voter::DRepKey(any_hash()), |a, b| matches!((a, b), (Voter::DRepKey(x), Voter::DRepKey(y)) if hash_eq(x, y)));
 rt!(c06_q_voter_pool, Voter, 40, Voter::StakePoolKey(any_hash()), |a, b| matches!((a, b), (Voter::StakePoolKey(x), Voter::StakePoolKey(y)) if hash_eq(x, y)));
-rt!(c06_q_govactionid, GovActionId, 48, GovActionId { transaction_id: any_hash(), action_index: u64_in(4) as u32 }, |a, b| a.action_index == b.action_index && hash_eq(&a.transaction_id, &b.transaction_id));
+rt!(c06_t_govactionid, GovActionId, 48, GovActionId { transaction_id: any_hash(), action_index: u64_in(4) as u32 }, |a, b| a.action_index == b.action_index && hash_eq(&a.transaction_id, &b.transaction_id));
 rt!(c06_q_vote, Vote, 8, { let k: u8 = kani::any(); match k { 0 => Vote::No, 1 => Vote::Yes, _ => Vote::Abstain } }, |a, b| a == b);
 
 fn int_in(class: u8) -> (Int, i128) {
@@ -95,11 +96,11 @@ fn int_in(class: u8) -> (Int, i128) {
     (Int::try_from(v).unwrap(), v)
 }
 // bound: Metadatum::Int over the whole CBOR integer range -2^64..2^64-1, one harness per head class, sign symbolic; unwind 6
-rt!(c06_q_metadatum_int_0, Metadatum, 16, Metadatum::Int(int_in(0).0), |a, b| matches!((a, b), (Metadatum::Int(x), Metadatum::Int(y)) if i128::from(*x) == i128::from(*y)));
-rt!(c06_q_metadatum_int_1, Metadatum, 16, Metadatum::Int(int_in(1).0), |a, b| matches!((a, b), (Metadatum::Int(x), Metadatum::Int(y)) if i128::from(*x) == i128::from(*y)));
+rt!(c06_t_metadatum_int_0, Metadatum, 16, Metadatum::Int(int_in(0).0), |a, b| matches!((a, b), (Metadatum::Int(x), Metadatum::Int(y)) if i128::from(*x) == i128::from(*y)));
+rt!(c06_t_metadatum_int_1, Metadatum, 16, Metadatum::Int(int_in(1).0), |a, b| matches!((a, b), (Metadatum::Int(x), Metadatum::Int(y)) if i128::from(*x) == i128::from(*y)));
 rt!(c06_t_metadatum_int_2, Metadatum, 16, Metadatum::Int(int_in(2).0), |a, b| matches!((a, b), (Metadatum::Int(x), Metadatum::Int(y)) if i128::from(*x) == i128::from(*y)));
 rt!(c06_t_metadatum_int_4, Metadatum, 16, Metadatum::Int(int_in(4).0), |a, b| matches!((a, b), (Metadatum::Int(x), Metadatum::Int(y)) if i128::from(*x) == i128::from(*y)));
-rt!(c06_q_metadatum_int_8, Metadatum, 16, Metadatum::Int(int_in(8).0), |a, b| matches!((a, b), (Metadatum::Int(x), Metadatum::Int(y)) if i128::from(*x) == i128::from(*y)));
+rt!(c06_t_metadatum_int_8, Metadatum, 16, Metadatum::Int(int_in(8).0), |a, b| matches!((a, b), (Metadatum::Int(x), Metadatum::Int(y)) if i128::from(*x) == i128::from(*y)));
 // bound: Metadatum::Bytes of 3 symbolic bytes; unwind 6
 rt!(c06_q_metadatum_bytes3, Metadatum, 16, { let b: [u8; 3] = kani::any(); Metadatum::Bytes(b.to_vec().into()) }, |a, b| matches!((a, b), (Metadatum::Bytes(x), Metadatum::Bytes(y)) if x.len() == 3 && y.len() == 3 && x[0] == y[0] && x[1] == y[1] && x[2] == y[2]));
 
@@ -108,10 +109,10 @@ rt!(c06_q_metadatum_bytes3, Metadatum, 16, { let b: [u8; 3] = kani::any(); Metad
 #[kani::unwind(6)]
 #[kani::stub(std::fmt::format, crate::stubs::fmt_format_stub)]
 fn c06_v_twin() {
-    let v = ExUnits { mem: u64_in(1), steps: u64_in(0) };
-    let mut buf = [0u8; 24];
+    let v = StakeCredential::AddrKeyhash(any_hash());
+    let mut buf = [0u8; 40];
     let n = enc(&v, &mut buf);
-    let r = minicbor::decode::<ExUnits>(&buf[..n]);
-    assert!(matches!(&r, Ok(d) if d.mem != v.mem), "twin: must fail");
-    core::mem::forget(r);
+    let r = minicbor::decode::<StakeCredential>(&buf[..n]);
+    assert!(matches!(&r, Ok(StakeCredential::ScriptHash(_))), "twin: must fail");
+    core::mem::forget((v, r));
 }
